@@ -155,6 +155,8 @@ def check(run):
     from .common import ctor_wiring
     ctor_wiring(c06.FilterRun(run, {"CTOR"}, {"CTOR": "FORMULA"}), prog, cls, "CTOR")   # size / probability as configured, per object
     c06.depends_on(run, "C18", {"E1"})      # acceptance and slot draws advance the global generator (no state save / restore)
+    c06.depends_on(run, "C06", {"NOMUT"})   # the imputer only reads what get_data hands out (a row removed there leaves a free slot)
+    c06.depends_on(run, "C15", {"DEFAULTS"}, only=lambda rule, inst: inst.endswith(".storage"))
     # ---- AGREE: TreeStorage relies on p >= 1 ---------------------------------------------------
     ts = prog.find_class("TreeStorage")
     run.need(ts is not None, "anchor class TreeStorage vanished")
